@@ -17,6 +17,7 @@ import numpy as np
 
 from core.ctx import VERIF
 from props import _c30_impl as I
+from props import _c30_extreme as X
 
 ID = "C30"
 LEAN_MODULES = ["NiftyVerif.Core.Proto", "NiftyVerif.Model.Priors", "NiftyVerif.Props.C30"]   # the driver imports the first two
@@ -32,12 +33,17 @@ OBLIGATIONS = ["NiftyVerif.C30." + t for t in (
     "invgamma_mode_mean_spec", "invgamma_mode_mean_rejects", "gamma_mean_var_spec",
     "interp_monotone", "interp_strictMono", "interp_nodes", "interp_between", "interp_range",
     "invgamma_monotone_and_step_error", "inverse_roundtrip_interp", "inverse_roundtrip_invgamma",
-    "interpolator_grid_covers", "invgamma_exact_at_nodes", "strictMono_tabulated_cl", "quantile_tabulated_cl",
-    "invgamma_cl_jacobian", "pushforward_cdf", "invgamma_prior_spec", "interpolator_grid_num_covers", "classic_eq_jax")]
+    "interpolator_grid_covers", "invgamma_exact_at_nodes", "strictMono_tabulated_cl_partial", "tabulated_cl_witness", "quantile_tabulated_cl",
+    "invgamma_cl_jacobian", "pushforward_cdf", "invgamma_prior_spec", "interpolator_grid_num_covers", "classic_eq_jax",
+    "log1pStable_eq", "lognormal_moments_stable", "lognormal_moments_stable_value")]
 RULE = ("case = (family, parameters, implementations, sorted standard-normal points x = Phi^-1(p) with p in [1e-12, 1-1e-12], "
         "log-uniform in min(p,1-p), both tails); parameters log-uniform over the documented ranges; non-trivial = points in "
         "both tails and non-default parameters; distinct by canonical JSON of the case. Separate streams: exact dyadic tables "
-        "for `interpolator` (class E), malformed parameters (error kinds)")
+        "for `interpolator` (class E), malformed parameters (error kinds); EXTREME stream (round 2): one case per decade of the "
+        "ratio std/mean | (b-a)/|a| | scale/|loc| in [1e-9, 1e3] for every elementary family and for lognormal_moments, "
+        "locations/scales cycling through 1e-12..1e-6 | 1e-3..1e3 | 1e6..1e12 (and mean = 1, a = 0, mean = 0 exactly), points "
+        "incl. both 1e-12 tails, 0 and +-1e-8, float64 / float32-input / float32-default (x64 off) modes of the JAX code, "
+        "gamma-family shapes 0.06..1e4 and scales 1e-12..1e12; tolerance = 512 x eps(dtype) x analytic conditioning")
 TRUSTED_BASE = [
     "Lean 4.33 kernel; axioms propext/Classical.choice/Quot.sound only (audited every run)",
     "hypotheses on the special functions, stated explicitly in the theorems (Priors.StdNormal: Phi strictly increasing, "
@@ -48,7 +54,10 @@ TRUSTED_BASE = [
     "states and the class-E stream compares exactly)",
     "harness: generators, tolerances (stated in design.d/C30.md), Fraction <-> float64 conversion",
 ]
-ASSUMPTIONS = ["IEEE rounding is outside the model (class T, 1e-9 relative + conditioning of the cdf value near 1)",
+ASSUMPTIONS = ["IEEE rounding is outside the model (class T, 1e-9 relative + conditioning of the cdf value near 1; extreme stream: "
+               "512 x eps x stated conditioning, measured noise <= 4 units)",
+               "float32 on XLA-CPU: jnp.exp of equal float32 arguments is position dependent (vector lanes vs remainder loop), "
+               "so the exact-order monotonicity check carries a 2-ulp slack in the float32 modes (exact in float64)",
                "classic tabulated operators use scipy's CubicSpline although documented as linear interpolation: the spline is "
                "shipped to the model as a function parameter; the oracle applies the linear-interpolation error bound "
                "h^2/8*max|f''| (with factor 2) to both"]
@@ -166,6 +175,41 @@ def gen_case(rng, fam, npts, k=None):
     return dict(op="transform", fam=fam, par=par, impls=impls, x=x)
 
 
+def gen_table_extreme(rng, k, npts):
+    """round 2: the gamma family at the extremes of shape (0.06 .. 1e4; below 0.052 the documented table itself overflows at
+    x = 8.2) and scale (1e-12 .. 1e12); same oracle (`judge`) and tolerances as the ordinary stream"""
+    fam = ("invgamma", "gamma", "loginvgamma", "beta", "invgamma", "gamma")[k % 6]
+    step = [0.01, 0.02, 0.05][k % 3]
+    sc = _lu(rng, *[(1e-12, 1e-6), (1e6, 1e12)][(k // 6) % 2])
+    a = _lu(rng, *[(0.06, 0.3), (50.0, 1e4)][(k // 2) % 2])
+    if fam in ("gamma", "beta") and step >= 0.02 and a <= 0.3:
+        a = _lu(rng, 0.21, 0.3)       # shape <= 0.2 with a coarse table: finding C30-classic_spline_small_shape (corpus replay)
+    if fam == "invgamma" and k % 6 == 4:
+        if (k // 6) % 2 == 0:     # mode / mean with mean/mode - 1 in [1e-3, 1e3]
+            mode = sc
+            mean = mode * (1 + _lu(rng, 1e-3, 1e3))
+            al = 2 / (mean / mode - 1) + 1
+            par, impls = dict(a=al, scale=mode * (al + 1), mode=mode, mean=mean, step=step), ["cl.modemean"]
+        else:                      # JAX with a location far away from / far inside the scale
+            par, impls = dict(a=_lu(rng, 0.3, 50), scale=sc, loc=sc * _lu(rng, 1e-6, 1e6), step=step), ["re.func", "re.prior"]
+    elif fam == "invgamma":
+        par, impls = dict(a=a, scale=sc, step=step), ["re.func", "re.prior", "re.jit", "cl.op", "cl.field"]
+    elif fam == "loginvgamma":
+        par, impls = dict(a=a, scale=sc, step=step), ["cl.op", "cl.field"]
+    elif fam == "gamma":
+        par = dict(a=a, scale=sc, mean=a * sc, var=a * sc * sc, step=step)
+        impls = ["cl.op", "cl.beta", "cl.field", "cl.meanvar"]
+    else:
+        b = _lu(rng, *[(0.06 if step < 0.02 else 0.21, 0.3), (50.0, 1e4)][(k // 4) % 2])
+        par, impls = dict(a=a, b=b, step=step), ["cl.op"]
+    grid = np.arange(I.TABLE_XMIN, I.TABLE_XMAX, par["step"])
+    grid = grid[np.abs(grid) < 7.0]
+    xs = set(X.gen_xpoints(rng, npts - 2))
+    while len(xs) < npts:
+        xs.add(float(grid[rng.randrange(len(grid))]))
+    return dict(op="transform", fam=fam, par=par, impls=impls, x=sorted(xs), extreme=True)
+
+
 # ------------------------------------------------------------------------------------------------
 # evaluation of the real code
 # ------------------------------------------------------------------------------------------------
@@ -226,14 +270,20 @@ def tolerances(fam, impl, par, x):
         E2, _ = I.interp_bounds(fam, par, x, h)
         E2 = np.where(np.isin(x, np.arange(I.TABLE_XMIN, I.TABLE_XMAX + h, h)), 0.0, E2)    # exact at the nodes
         cond = np.maximum(I.ref_cond(d, x), I.ref_cond(d, np.sign(x) * (np.abs(x) + h)))
+        # round 2: AT the nodes nothing but the rounding of the table entry t (= log Q for the log-space tables), of its
+        # evaluation and of the scale multiplication remains: floor = X.K * eps * (1 + |t|) (measured: <= 1.3 units) instead of 1e-9
+        node = np.isin(x, np.arange(I.TABLE_XMIN, I.TABLE_XMAX + h, h))
+        with np.errstate(all="ignore"):
+            t = np.abs(np.log(np.abs(r) / (par["scale"] if not par.get("loc") else 1.0))) if fam in ("invgamma", "loginvgamma") else 0.0 * x
+        fl = np.where(node & np.isfinite(t), X.K * I.EPS * (1.0 + t), RTOL)
         if fam == "invgamma":
-            tol = SLACK * np.expm1(E2) * np.abs(r) + 8 * cond + RTOL * np.abs(r)
+            tol = SLACK * np.expm1(E2) * np.abs(r) + 8 * cond + fl * np.abs(r)
         elif fam == "loginvgamma":
-            tol = SLACK * E2 + 8 * cond / np.abs(r) + RTOL * (np.abs(r_cmp) + abs(math.log(par["scale"])) + 1)
+            tol = SLACK * E2 + 8 * cond / np.abs(r) + fl * (np.abs(r_cmp) + abs(math.log(par["scale"])) + 1)
         elif fam == "gamma":
-            tol = SLACK * E2 * par["scale"] + 8 * cond + RTOL * np.abs(r)
+            tol = SLACK * E2 * par["scale"] + 8 * cond + fl * np.abs(r)
         else:
-            tol = SLACK * E2 + 8 * cond + RTOL * np.abs(r)
+            tol = SLACK * E2 + 8 * cond + fl * np.abs(r)
     return r_cmp, tol
 
 
@@ -285,6 +335,19 @@ def judge(case, ev):
         x, y = res["x"], res["y"]
         if y.shape != x.shape or not np.all(np.isfinite(y)):
             return (f"{fam}/{impl} {par}: non-finite or mis-shaped output", sig(impl, "finite"))
+        if fam in ("gamma", "beta") and impl.startswith("cl.") and _ringing_region(fam, par):
+            # classic linear-space CubicSpline, small shape, coarse table: the spline rings in the lower tail (values below the
+            # support, decreasing stretches) -- finding C30-classic_spline_small_shape; its own signature, only in this region
+            dec = np.diff(y) < -1e-12 * np.maximum(np.abs(y[1:]), np.abs(y[:-1]))
+            if np.any(y < 0) or np.any(dec):
+                i = int(np.argmin(y)) if np.any(y < 0) else int(np.argmax(dec))
+                return (f"{fam}/{impl} {par}: classic spline rings: T({x[i]!r})={y[i]!r} is below the support / the outputs "
+                        f"decrease on the sorted grid ({int((y < 0).sum())} negative values, {int(dec.sum())} decreasing steps)",
+                        dict(fam=fam, impl=impl, kind="classic-spline-ringing"))
+        if fam in ("invgamma", "gamma", "beta", "lognormal") and np.any(y < 0):
+            i = int(np.argmin(y))
+            return (f"{fam}/{impl} {par}: T({x[i]!r})={y[i]!r} lies outside the support of the target distribution",
+                    sig(impl, "support"))
         r, tol = tolerances(fam, impl, par, x)
         bad = np.abs(y - r) > tol
         if bad.any():
@@ -387,6 +450,12 @@ def judge(case, ev):
 I_TABLE = TABLE_FAMS
 
 
+def _ringing_region(fam, par):
+    """where the classic operators' cubic spline through a LINEAR-space table is known to ring (shape <= 0.2 and a table
+    step coarser than the default 0.01): GammaOperator, BetaOperator"""
+    return par.get("step", 0.01) >= 0.02 and min(par["a"], par.get("b", 1.0) if fam == "beta" else 1.0) <= 0.2
+
+
 def _check_props(fam, par, res):
     """the documented read-only properties of InverseGammaOperator / GammaOperator against the textbook moments"""
     d = I.ref_dist(fam, par)
@@ -456,6 +525,8 @@ def oracle(case):
         return oracle_interp(case)
     if op == "malformed":
         return oracle_malformed(case)
+    if op == "extreme":
+        return X.oracle_extreme(case)
     return None
 
 
@@ -923,6 +994,84 @@ def corr_interp(co, case):
     co.add(dict(op="interpInv", xs=[frac(v) for v in xs], ys=[frac(v) for v in ys], y=[frac(v) for v in yq]), cb_inv)
 
 
+def corr_extreme(co, case):
+    """model vs code at the extremes (float64 code paths): tolerance = X.K x eps x conditioning (the same units as the oracle).
+    `lognormal_moments` is evaluated by the driver with the Kahan-stable `log1p` (over the reals the same function:
+    theorem `lognormal_moments_stable`), everything else is the ordinary transcription at Float"""
+    fam, par = case["fam"], case["par"]
+    KE = X.K * X.EPS64
+
+    def num(o, k):
+        return unfrac(o[k]) if isinstance(o, dict) and k in o else float("nan")
+    if fam == "lognormal_moments":
+        m, s = par["mean"], par["std"]
+        _, rs, v = X.lognormal_ref(m, s)
+        tol = np.array([KE * (abs(math.log(m)) + 0.5 * v) + 1e-300, KE * rs])
+        for impl, opn in (("re.f64", "lognormalMomentsReStable"), ("cl", "lognormalMomentsClStable")):
+            r = I.guard(X.moments_eval)(impl, m, s)
+            if I.is_err(r):
+                continue
+            co.add(dict(op=opn, mean=frac(m), std=frac(s)),
+                   lambda o, r=r, opn=opn, impl=impl: co.close(dict(case, impls=[impl]), [r[0], r[1]], [num(o, "logmean"), num(o, "logstd")],
+                                                               tol, opn + ": model (stable log1p) vs code, extremes", key="extreme:" + opn))
+        return
+    if fam not in ("normal", "uniform", "laplace") or "re.func.f64" not in case.get("impls", []):
+        return
+    x = np.asarray(case["x"], dtype=float)
+    x = x[[0, len(x) // 3, len(x) - 1]]
+    res = I.guard(X._re_eval)(fam, "func", "f64", par, x)
+    if I.is_err(res):
+        return
+    y = res["y"]
+    c1 = dict(case, impls=["re.func.f64"])
+    if fam in ("uniform", "laplace"):
+        _, jnp = I._jax()
+        from jax.scipy.stats import norm as jnorm
+        xj = jnp.asarray(x)
+        Pj, LPj, LMj = np.asarray(jnorm.cdf(xj)), np.asarray(jnorm.logcdf(xj)), np.asarray(jnorm.logcdf(-xj))
+    for i in range(len(x)):
+        xi, yi = float(x[i]), float(y[i])
+        ci = dict(c1, x=[xi])
+        if fam == "normal":
+            tol = KE * (abs(par["mean"]) + par["std"] * abs(xi)) + 1e-300
+            co.add(dict(op="normal", mean=frac(par["mean"]), std=frac(par["std"]), x=frac(xi)),
+                   lambda o, ci=ci, yi=yi, tol=tol: co.close(ci, yi, num(o, "y"), tol, "normal: model vs re.func, extremes", key="extreme:normal"))
+        elif fam == "uniform":
+            P = float(Pj[i])
+            tol = KE * (abs(par["a"]) + abs(par["b"] - par["a"]) * P) + 1e-300
+            line = dict(op="uniformPriorDefault", Phi=frac(P)) if par.get("default") else \
+                dict(op="uniformPriorRe", a=frac(par["a"]), b=frac(par["b"]), Phi=frac(P))
+            co.add(line, lambda o, ci=ci, yi=yi, tol=tol: co.close(ci, yi, num(o, "y"), tol, "uniformPriorRe: model vs re.func, extremes",
+                                                                  key="extreme:uniformPriorRe"))
+        else:
+            lp, lmn = float(LPj[i]), float(LMj[i])
+            tol = KE * par["scale"] * (abs(min(lp, lmn)) + 1.0)
+            co.add(dict(op="laplaceRe", alpha=frac(par["scale"]), x=frac(xi), logPhi=frac(lp), logPhiNeg=frac(lmn)),
+                   lambda o, ci=ci, yi=yi, tol=tol: co.close(ci, yi, num(o, "y"), tol, "laplaceRe: model vs re.func, extremes",
+                                                              key="extreme:laplaceRe"))
+
+
+def _extreme_stats(ctx, c):
+    fam, par = c["fam"], c["par"]
+    ctx.stat("extreme:" + fam)
+    ratio = None
+    if "std" in par and par.get("mean"):
+        ratio = par["std"] / abs(par["mean"])
+    elif "b" in par and par.get("a"):
+        ratio = (par["b"] - par["a"]) / abs(par["a"])
+    elif "loc" in par and par.get("loc"):
+        ratio = par["scale"] / abs(par["loc"])
+    if ratio is not None and ratio > 0:
+        ctx.stat("extreme:%s:ratio-decade:1e%+03d" % (fam, math.floor(math.log10(ratio))))
+    for k in ("mean", "a", "loc", "scale"):
+        v = par.get(k)
+        if isinstance(v, float) and v != 0 and (k != "scale" or "loc" not in par):
+            ctx.stat("extreme:magnitude:" + ("<=1e-6" if abs(v) <= 1e-6 else (">=1e6" if abs(v) >= 1e6 else "1e-6..1e6")))
+            break
+    for impl in c.get("impls", []):
+        ctx.stat("extreme:mode:" + (impl.rsplit(".", 1)[-1] if impl.startswith("re.") else "classic-f64"))
+
+
 # ------------------------------------------------------------------------------------------------
 # run / shrink / search
 # ------------------------------------------------------------------------------------------------
@@ -976,12 +1125,26 @@ def run(ctx):
         cases.append(gen_interp_case(ctx.rng, k))
     for mcase in MALFORMED:
         cases.append(dict(op="malformed", **mcase))
+    # round 2: the extremes of the parameter range (generated last: the streams above are unchanged)
+    cases += X.gen_extreme(ctx.rng, ctx.quick)
+    for k in range(ctx.n(6, 48)):
+        c = gen_table_extreme(ctx.rng, k + (ctx.seed % 4) * 6 if ctx.quick else k, npts)
+        if ctx.quick:
+            c["impls"] = [i for i in c["impls"] if i not in ("re.jit", "cl.field")] or c["impls"]
+        cases.append(c)
 
     for c in cases:
         op = c.get("op", "transform")
         ctx.stat("op:" + op)
         ctx.case({k: v for k, v in c.items() if k != "ship_table"}, _nontrivial(c))
-        if op == "transform":
+        if op == "extreme":
+            _extreme_stats(ctx, c)
+            _register(ctx, c, X.oracle_extreme(c))
+            corr_extreme(co, c)
+        elif op == "transform":
+            if c.get("extreme"):
+                ctx.stat("extreme:table:" + c["fam"])
+                ctx.stat("extreme:table:shape-decade:1e%+03d" % math.floor(math.log10(c["par"]["a"])))
             ctx.stat("fam:" + c["fam"])
             for impl in c["impls"]:
                 ctx.stat("impl:" + c["fam"] + "/" + impl)
@@ -1007,10 +1170,19 @@ def run(ctx):
             ctx.stat("malformed:" + c["want"])
             _register(ctx, c, oracle_malformed(c))
     co.run()
+    worst = {}
+    for (fam, name, impl), v in X.STATS.items():
+        key = fam + ":" + name
+        worst[key] = max(worst.get(key, 0.0), round(float(v), 3))
+    ctx.extra["extreme_tolerance_factor_K"] = X.K
+    ctx.extra["extreme_worst_error_in_units_of_eps_x_conditioning"] = dict(sorted(worst.items()))
 
 
 def shrink(case):
     op = case.get("op", "transform")
+    if op == "extreme":
+        yield from X.shrink_extreme(case)
+        return
     if op != "transform":
         return
     x = case["x"]
@@ -1056,6 +1228,11 @@ def search(ctx):
             return
     for mcase in MALFORMED:
         c = dict(op="malformed", **mcase)
+        r = oracle(c)
+        if r:
+            ctx.counterexample(c, *r)
+            return
+    for c in X.gen_extreme(rng, True):
         r = oracle(c)
         if r:
             ctx.counterexample(c, *r)
